@@ -177,4 +177,17 @@ def importVersion (dom : String) : List (String × Nat) → Option Nat
   | [] => none
   | (d, v) :: rest => if d = dom then some v else importVersion dom rest
 
+/-- canonical rendering of annotations (for diffing against the Python side) -/
+def Dim.render : Dim → String
+  | .known n => toString n
+  | .sym s => "'" ++ s ++ "'"
+  | .unk => "?"
+
+def Annot.render (a : Annot) : String :=
+  let dt := match a.dtype with | none => "-" | some d => toString d
+  let ds := match a.dims with
+    | none => "-"
+    | some l => "[" ++ ",".intercalate (l.map Dim.render) ++ "]"
+  dt ++ ":" ++ ds
+
 end J2O.MT
